@@ -127,8 +127,22 @@ def _flow(eng) -> ClassInfo:
     return eng.db.cls(f"{PKG}._flow_control.WriteFlowControl")
 
 
+def _lost_markers(fc) -> set[str]:
+    """the attribute(s) that record 'connection_lost() was called': what the idempotence guard at the top of connection_lost() tests
+    (`if self.__connection_lost: return` / `if self.__lost is not None: return`), whatever it is called"""
+    cl = fc.methods.get("connection_lost")
+    out = set()
+    if cl is not None and not isinstance(cl.node, ast.Lambda):
+        for st in cl.node.body:
+            if isinstance(st, ast.If) and len(st.body) == 1 and isinstance(st.body[0], ast.Return) and st.body[0].value is None:
+                out |= {a.attr for a in ast.walk(st.test) if isinstance(a, ast.Attribute) and isinstance(a.value, ast.Name) and a.value.id == cl.self_name}
+                break
+    return out
+
+
 def check_wake(eng, run):
     fc = _flow(eng)
+    lost_markers = _lost_markers(fc)
     waiters_attr = None
     for m, ann in fc.fields.items():
         if "deque" in ast.unparse(ann) or "list" in ast.unparse(ann):
@@ -198,7 +212,7 @@ def check_wake(eng, run):
             if isinstance(t, ast.Compare) and len(t.ops) == 1 and isinstance(t.ops[0], (ast.Is, ast.IsNot)) and isinstance(t.comparators[0], ast.Constant) and t.comparators[0].value is None:
                 lost_when = isinstance(t.ops[0], ast.IsNot)
                 t = t.left
-            if self.method == "connection_lost" and isinstance(t, ast.Attribute) and "connection_lost" in t.attr and "errno" not in t.attr and "looped" not in fact:
+            if self.method == "connection_lost" and isinstance(t, ast.Attribute) and (("connection_lost" in t.attr and "errno" not in t.attr) or t.attr in lost_markers) and "looped" not in fact:
                 return ([fact | {"bail"}], [fact]) if lost_when else ([fact], [fact | {"bail"}])
             return [fact], [fact]
 
@@ -241,7 +255,7 @@ def check_wake(eng, run):
     dr = fc.methods["drain"]
 
     def lost_test(n):
-        return isinstance(n, TestAtom) and "connection_lost" in ast.unparse(n.test) and "exception" not in ast.unparse(n.test)
+        return isinstance(n, TestAtom) and (("connection_lost" in ast.unparse(n.test) and "exception" not in ast.unparse(n.test)) or any(isinstance(a, ast.Attribute) and a.attr in lost_markers for a in ast.walk(n.test)))
 
     def decision(n):
         if isinstance(n, ast.Return):
@@ -258,7 +272,7 @@ def check_wake(eng, run):
         b = an.breaks[0] if an.breaks else an.ends[0][0]
         run.finding("C20.wake", dr, _stmt_at(dr, getattr(b, "lineno", dr.lineno)), "drain() decides (return / park) on a path that suspended after - or never made - the connection-lost test: a connection_lost() delivered during that suspension is missed, the send returns normally although nothing was sent, or parks for ever")
     run.ob("C20.wake", f"{dr.short}:lost-check-then-decide-atomically", ok)
-    raises = [n for n in own_nodes(dr.node) if isinstance(n, ast.If) and "connection_lost" in ast.unparse(n.test) and all(_ends_raise(b) for b in ([n.body]))]
+    raises = [n for n in own_nodes(dr.node) if isinstance(n, ast.If) and ("connection_lost" in ast.unparse(n.test) or any(isinstance(a, ast.Attribute) and a.attr in lost_markers for a in ast.walk(n.test))) and all(_ends_raise(b) for b in ([n.body]))]
     ok = bool(raises)
     if not ok:
         run.finding("C20.wake", dr, dr.node, "drain() no longer raises when the connection is already lost")
@@ -390,6 +404,8 @@ def check_route(eng, run):
 
             class Fwd(RuleAnalysis):
                 tokens = ("Exception",)
+                inline_helpers = True   # connection_lost() split into private steps
+                inline_any_args = True
 
                 def initial(self, f):
                     return ["no"]
@@ -543,6 +559,27 @@ def check_done(eng, run):
     run.floor("C20.done future completion sites", n, 10)
 
 
+def check_flow_state_driven_by_the_transport_only(eng, run):
+    """the paused flag mirrors what asyncio told the protocol: `WriteFlowControl.pause_writing()` / `resume_writing()` are called only by
+    the protocol callbacks of the same names (asyncio's high/low water-mark notifications).  Anybody else who 'resumes' - an error
+    callback, a close path - releases the suspended senders and clears the flag while the transport is still above its high-water
+    mark: asyncio will not call pause_writing() again, so later sends return at once and the queue grows without bound (or a send
+    returns with its bytes still in the closing transport's buffer)."""
+    n = 0
+    for fn in eng.db.all_functions():
+        if isinstance(fn.node, ast.Lambda) or not fn.module.name.startswith("easynetwork.lowlevel.api_async.backend._asyncio"):
+            continue
+        for c in own_nodes(fn.node):
+            if isinstance(c, ast.Call) and isinstance(c.func, ast.Attribute) and c.func.attr in ("resume_writing", "pause_writing"):
+                n += 1
+                ok = fn.name == c.func.attr
+                if not ok:
+                    run.finding("C20.route", fn, _stmt_at(fn, c.lineno), f"`{ast.unparse(c)[:50]}` in {fn.name}(): the write-flow state is changed by something else than asyncio's "
+                                f"{c.func.attr}() notification - suspended senders are released (and the paused flag cleared) while the transport is still above its high-water mark")
+                run.ob("C20.route", f"{fn.short}:{c.func.attr}:only-from-the-protocol-callback", ok)
+    run.floor("C20.route forwarded pause/resume notifications", n, 4)
+
+
 def run(eng, run):
     from sa.anchors import verify as _verify_anchor_names
     _verify_anchor_names(eng, run)
@@ -554,6 +591,7 @@ def run(eng, run):
     run.attempt(check_done, eng, run)
     run.attempt(check_own, eng, run)
     run.attempt(check_route, eng, run)
+    run.attempt(check_flow_state_driven_by_the_transport_only, eng, run)
     # a sender waiting for the TLS send lock behind one that is suspended by backpressure: the records it has produced must not leave the
     # write BIO before it holds the lock, or its cancellation strands every later sender (rule of C12.tls)
     from rules import c12
